@@ -9,7 +9,7 @@ from .actions import ActionAnalyzer, CHOICE, REPETITIONS, Reads, info_points
 from .core import AnalysisError, Report
 from .emit import Folder
 from .grammar import GNode, Grammar, Scope, first_terms, is_constant, VARIABLE_TERMINALS
-from .prog import (Program, bind_call, enclosing, func_params, guards_of, parent, required_params, single_def, unparse,
+from .prog import (Program, bind_call, dotted, enclosing, func_params, guards_of, parent, required_params, single_def, unparse,
                    walk_no_nested)
 from .rules_grammar import ctx_label, gloc, parse_root
 
@@ -872,8 +872,16 @@ def rule_lists_kept_whole(ctx, rep: Report, rid="G10", package="gtwrap/interface
                     if "self" in roots and fn.name in ("__repr__", "__str__"):
                         continue
                     n += 1
-                    whole = isinstance(base, (ast.Name, ast.Attribute)) or (
-                        isinstance(base, ast.Call) and isinstance(base.func, ast.Attribute) and base.func.attr in ("asList", "as_list") and not base.args)
+                    def whole_list(b_) -> bool:
+                        if isinstance(b_, (ast.Name, ast.Attribute)):
+                            return True
+                        if isinstance(b_, ast.Call) and isinstance(b_.func, ast.Attribute) and b_.func.attr in ("asList", "as_list") and not b_.args:
+                            return True
+                        # several whole lists walked side by side (their alignment is G14's business), or a list with its positions
+                        if isinstance(b_, ast.Call) and (dotted(b_.func) or "").split(".")[-1] in ("zip", "zip_longest", "enumerate") and b_.args:
+                            return all(whole_list(x) for x in b_.args if not isinstance(x, ast.Constant))
+                        return False
+                    whole = whole_list(base)
                     cv = {x.id for x in ast.walk(gen.target) if isinstance(x, ast.Name)}
                     elt_txt = unparse(node.elt)
                     for v_ in sorted(cv, key=len, reverse=True):
@@ -1057,3 +1065,63 @@ def rule_result_shapes(ctx, rep: Report, rid="G13", min_bindings=20):
     rep.units["named_results_bound"] = n
     if n < min_bindings:
         raise AnalysisError(f"{rep.prop}/{rid}: only {n} named results handed to constructors ({min_bindings} expected)")
+
+
+def rule_parallel_results_aligned(ctx, rep: Report, rid="G14", min_actions=20):
+    """Two results that an action pairs up by position (`zip(t.names, t.lists)`, `zip_longest`, the same index into both)
+    have one entry per repetition *each*: a name that sits under an `Optional` inside the repeated element collects an
+    entry only where the optional part was written, so the k-th entry of one list no longer belongs to the k-th entry of
+    the other (the instantiation list of the second template parameter is attached to the first)."""
+    g, aa, prog = ctx.grammar, ctx.actions, ctx.prog
+    root, _ = parse_root(ctx)
+    n_actions, n = 0, 0
+    for a in aa.distinct_actions(root):
+        n_actions += 1
+        lv = a.action
+        node = lv.node
+        scopes = [node]
+        tok = None
+        if isinstance(node, ast.Lambda) and node.args.args:
+            tok = node.args.args[-1].arg
+            if isinstance(node.body, ast.Call):
+                tgt = aa.resolve_callee(node.body, lv.mi, lv.cls_qual)
+                if tgt is not None:
+                    try:
+                        b = bind_call(tgt[1], node.body, drop_self=tgt[2])
+                    except AnalysisError:
+                        b = {}
+                    for pn, ax in b.items():
+                        if isinstance(ax, ast.Name) and ax.id == tok:
+                            scopes.append((tgt[1], pn))
+        members = Scope(g, a).members
+        by_name: Dict[str, List[Tuple[GNode, Tuple[GNode, ...]]]] = {}
+        for nd, anc in members:
+            if nd.name:
+                by_name.setdefault(nd.name, []).append((nd, anc))
+        for sc in scopes:
+            body, tv = (sc, tok) if not isinstance(sc, tuple) else sc
+            for c in ast.walk(body):
+                if not (isinstance(c, ast.Call) and (dotted(c.func) or "").split(".")[-1] in ("zip", "zip_longest") and len(c.args) >= 2):
+                    continue
+                names = [x.attr for x in c.args if isinstance(x, ast.Attribute) and isinstance(x.value, ast.Name) and x.value.id == tv]
+                if len(names) < 2 or any(nm not in by_name for nm in names):
+                    continue
+                n += 1
+
+                def optional_in_repetition(nd, anc) -> Optional[bool]:
+                    reps = [i for i, x in enumerate(anc) if x.kind in REPETITIONS]
+                    if not reps:
+                        return None
+                    below = anc[reps[-1] + 1:]
+                    return any(x.kind in ("Optional", "Or", "MatchFirst") for x in below)
+                flags = {nm: {optional_in_repetition(nd, anc) for nd, anc in by_name[nm]} for nm in names}
+                flat = {nm: (next(iter(v)) if len(v) == 1 else None) for nm, v in flags.items()}
+                ok = len(set(flat.values())) == 1 and None not in flat.values() and True not in flat.values()
+                if set(flat.values()) == {None}:
+                    ok = True            # not collected in a repetition at all
+                rep.add(rid, f"{aa.label(a)}:{unparse(c)[:50]}:the paired results have one entry per repetition each", ok,
+                        f"per repetition, optional: {flat}: the results are paired by position, but one of them gets an entry only where an optional part "
+                        f"was written - entries shift to the front and are attributed to another element", f"{lv.mi.rel}:{c.lineno}")
+    rep.units["paired_results"] = n
+    if n_actions < min_actions:
+        raise AnalysisError(f"{rep.prop}/{rid}: only {n_actions} parse actions scanned")
